@@ -6,7 +6,7 @@
 From Coq Require Import ZArith List Bool String Lia.
 From Model Require Import Tree Text Instr AsmAst Lexer Parser Print.
 From Spec Require Import Numerals.
-From Proofs Require Import LexNumProofs.
+From Proofs Require Import LexNumProofs PiecesProofs LayoutProofs OperandTextProofs.
 Import ListNotations.
 Open Scope Z_scope.
 
@@ -110,6 +110,38 @@ Theorem C05_operand_fill : forall name dsp t v sp ts prev,
 Proof. exact operand_fill. Qed.
 Print Assumptions C05_operand_fill.
 
+(* ---- end to end: the text of a whole statement ("ADD R1, R2, " / "LDR R3, R4, " / "LD R5, " /
+        "JSR " / "TRAP " / ".orig " / ".blkw " / ".fill " followed by a numeral) parses to the
+        statement carrying the value exactly when the value fits the field; otherwise parse_ast
+        returns an error whose span is the numeral.  [word_ok x t] holds for every spelling of an
+        in-range numeral (C03_spell_*, props/C03.v); two instances follow ---- *)
+Theorem C05_operand_text : forall f x t v, word_ok x t -> num_tok t v ->
+  if fits f v
+  then parse_ast (operand_text f x) = POk [mkStmt [] (field_nucleus f v) 0 (byte_len (operand_text f x))]
+  else exists k, parse_ast (operand_text f x) = PErr k (byte_len (text_of (field_prefix f)), byte_len (operand_text f x)).
+Proof. exact operand_text_parse. Qed.
+Print Assumptions C05_operand_text.
+
+Theorem C05_operand_text_decimal : forall f ds, ds <> [] -> Forall dec_digit ds -> value_of 10 ds <= 65535 ->
+  operand_outcome f ds (value_of 10 ds) (parse_ast (operand_text f ds)).
+Proof.
+  intros f ds Hne Hd Hv. apply (operand_text_parse f ds (TUnsigned (value_of 10 ds))).
+  - apply word_ok_dec; assumption.
+  - left. split; [reflexivity|]. split; [|exact Hv].
+    unfold value_of. apply numeral_value_ge; [lia|apply valid_dec; exact Hd|lia].
+Qed.
+Print Assumptions C05_operand_text_decimal.
+
+Theorem C05_operand_text_hash_minus : forall f ds, ds <> [] -> Forall dec_digit ds -> value_of 10 ds <= 32768 ->
+  operand_outcome f (35 :: 45 :: ds) (- value_of 10 ds) (parse_ast (operand_text f (35 :: 45 :: ds))).
+Proof.
+  intros f ds Hne Hd Hv. apply (operand_text_parse f (35 :: 45 :: ds) (TSigned (- value_of 10 ds))).
+  - apply word_ok_hash_minus_dec; assumption.
+  - right. split; [reflexivity|].
+    assert (0 <= value_of 10 ds) by (unfold value_of; apply numeral_value_ge; [lia|apply valid_dec; exact Hd|lia]). lia.
+Qed.
+Print Assumptions C05_operand_text_hash_minus.
+
 (* the hypotheses are satisfiable, and the statements say what they should on familiar inputs *)
 Example C05_ex_tokens :
   lex (zs "65535") = LexOk [(TUnsigned 65535, (0, 5))] /\ lex (zs "65536") = LexErr [] DoesNotFitU16 (0, 5) /\
@@ -123,6 +155,13 @@ Proof.
   change (zs "00fF") with [48; 48; 102; 70].
   repeat (apply Forall_cons; [unfold hex_digit; lia|]). apply Forall_nil.
 Qed.
+Example C05_ex_text :
+  operand_text Imm5 (zs "#-16") = zs "ADD R1, R2, #-16" /\ operand_text Fill (zs "xFFFF") = zs ".fill xFFFF" /\
+  parse_ast (zs "ADD R1, R2, #-16") = POk [mkStmt [] (NInstr (AADD 1 2 (Imm (-16)))) 0 16] /\
+  parse_ast (zs "ADD R1, R2, #16") = PErr (EOffS 5) (12, 15) /\
+  parse_ast (zs ".blkw 0") = PErr (EMsg MBlkwZero) (6, 7) /\
+  parse_ast (zs ".fill -1") = POk [mkStmt [] (NDir (DFill (POff 65535))) 0 8].
+Proof. vm_compute. repeat split. Qed.
 Example C05_ex_fields :
   fits Imm5 15 = true /\ fits Imm5 16 = false /\ fits Imm5 (-16) = true /\ fits Blkw 0 = false /\
   fits Fill (-32768) = true /\ stored Fill (-1) = 65535 /\ fits TrapVect8 256 = false /\
